@@ -26,8 +26,26 @@ theorem pem_eq_der (acc : DerType → Bytes → Option Info) (t : DerType) (d : 
     (h : acc t d = some i) (hex : ∀ t' ∈ earlier t, acc t' d = none) :
     pemBlockRoute acc (labelOf t) d = i ∧ asn1File acc d = i := by
   constructor
-  · simp [pemBlockRoute, label_matches, h]
+  · simp [pemBlockRoute, pemBlockRouteB, label_matches, h]
   · simp [asn1File, trial_selects acc t d i h hex]
+
+/-- PEM = DER ALSO WHEN THE LABEL'S PARSER REFUSES THE BODY (D71 repaired): for EVERY body `d` under the label of any
+    type `t` whose parser does not accept it — a certificate on a curve crypto/x509 does not know, say — the PEM block
+    is described exactly as the raw DER is (another type's description, or the generic ASN.1 dump), and is "unknown
+    PEM data" only when the DER route itself has nothing to say.  Tied to pem.go by the regenerated fact. -/
+theorem pem_eq_der_unparsed (acc : DerType → Bytes → Option Info) (t : DerType) (d : Bytes) (h : acc t d = none) :
+    pemBlockRoute acc (labelOf t) d =
+      (match derRoute acc d with
+       | some i => i
+       | none => (Asn1.dump d).getD unknownPEM) ∧
+    (∀ i, derRoute acc d = some i → asn1File acc d = i) ∧
+    (derRoute acc d = none → ∀ i, Asn1.dump d = some i → asn1File acc d = i) := by
+  have hf : Gen.pemUnparsedFallsBack = true := by decide
+  refine ⟨?_, ?_, ?_⟩
+  · simp [pemBlockRoute, pemBlockRouteB, label_matches, h, unparsedB, hf]
+    cases derRoute acc d <;> rfl
+  · intro i hi; simp [asn1File, hi]
+  · intro hn i hi; simp [asn1File, hn, hi]
 
 theorem labelOf_plain (t : DerType) : 10 ∉ labelOf t ∧ 58 ∉ labelOf t ∧ Containers.isPgpLabel (labelOf t) = false := by
   cases t <;> decide
